@@ -50,7 +50,7 @@ CLAIMED = {
         note="small key universe (2 policies x 2 names) and quantities -2..2 in TLC; addition-preserving scaling makes the spec result exact at large magnitudes; the int64/uint64 instantiations and the nil zero value are outside the property's domain (evidence only).",
         design_ref="§5 C06", engine="ledger-decision"),
     "C09": dict(
-        technique="TLA+ model of the muxer's read/route/deliver/unregister steps and per-protocol senders (Muxer.tla, TLC safety+liveness over every inbound stream of <= 2-3 segments), observer specification MuxObs.tla validated by TLC on traces of real muxers (incl. an independent wire tap), TLC-enumerated adversarial inbound streams (MuxPlans.tla)",
+        technique="TLA+ model of the muxer's read/route/deliver/unregister steps and per-protocol senders (Muxer.tla, TLC safety+liveness over every inbound stream of <= 2-3 segments), observer specification MuxObs.tla validated by TLC on traces of real muxers (incl. an independent wire tap), TLC-enumerated adversarial inbound streams (MuxPlans.tla), TLC-enumerated API histories (MuxerApi.tla: start gate, registration, diffusion mode, Stop, peer close) replayed on a real muxer",
         text="Muxer.tla models Route and Deliver as separate steps (the code releases the map lock between them), so TLC explores the unregister race; invariants: routed only to the registered receiver of (protocol, direction), in order, nothing after an error, the read loop never ends silently, zero length is an error. Real muxers are traced: every Recv must be the next segment the peer wrote (id, direction, length, content hash), the tapped wire bytes must be the Send events each in one piece, payload 1..65535, deliveries as the specification predicts for every enumerated inbound stream and diffusion mode.",
         note="fragmentation below the model's grain (exercised by the fragmenting conn); hashes are FNV-64; the race scenario is forced through the Route gate.",
         design_ref="§5 C09, Appendix C", engine="muxer"),
@@ -72,7 +72,7 @@ CLAIMED = {
     "C21": dict(
         technique="TLA+ model of the chain-sync client (ChainSyncClient.tla: Sync, syncLoop, handlers, Stop over the engine's bounded send queue) sharing its observer (ChainSyncObs.tla) with the trace validator (ChainSyncTrace.tla); traces of the real client against the library's server validated by TLC",
         text="Invariants Outstanding <= EffLimit, callback order = server order, one callback per RollForward/RollBackward with its tip, none for AwaitReply, Stop ends cleanly; TLC checks them on the model for limits 0..3 and histories <= 3 (thorough 6) and emits server histories; 141 (thorough 1366) real conversations with limits {0,1,2,50,100}, NtN and NtC, slow callbacks are traced and validated.",
-        note="known findings F-C21z, F-C21-stopfull, F-C21-orphan; the BlockPipeline path of handleRollForward is not exercised.",
+        note="known findings F-C21z, F-C21-stopfull, F-C21-orphan; conversations with Config.Pipeline set (blocks handed to a real pipeline, held inside its workers) are part of the case space since wave 5.",
         design_ref="§5 C21", engine="chainsync"),
     "C24": dict(
         technique="TLA+ model of the tx-submission acknowledgement window (TxSubmission.tla), TLC invariants + emitted API histories and single wire requests, replayed on a real Server and Client over real muxers and by a raw peer",
@@ -97,7 +97,7 @@ CLAIMED = {
     "C13": dict(
         technique="TLA+ observer specification (EngineObs.tla): admission events logged under the pending-bytes mutex validated by TLC; TLC-generated back-pressure scenarios (fill / at limit / over limit, slow consumer)",
         text="For limits 200/4000/70000 bytes and a slow consumer, every admission event must show len <= limit, pending <= limit, the limit of the state that was read, and exact pending-byte accounting against releases; a message one byte over the limit must end the protocol with an error; conversations at and below the limit must complete (no deadlock).",
-        note="the 16 MiB read-buffer clause is not exercised in the quick tier; limits are applied by the engine to the sender's queue too, so each endpoint is given only its receive-side limit.",
+        note="the 16 MiB read-buffer clause is exercised by three rows in both tiers; receive queues of capacity 1 and 3 (plans bpq-*); limits are applied by the engine to the sender's queue too, so each endpoint is given only its receive-side limit.",
         design_ref="§5 C13, Appendix A", engine="engine"),
     "C14": dict(
         technique="TLA+ observer specification (EngineObs.tla) with timer events stamped by the stateLoop's clock; TLC-generated stall scenarios",
